@@ -30,7 +30,7 @@ ASSUMPTIONS = [
     "only the default ignore patterns are in force (custom patterns are C12's domain)",
     "regular files and directories only; names without control characters, U+2028/2029 excluded here (C10 covers them)",
 ]
-BUDGET = {"quick": (240, 4), "thorough": (12000, 16)}
+BUDGET = {"quick": (240, 4), "thorough": (72000, 16)}
 REQUIRED = ["nested", "prior_generation", "sf", "sf_folder", "empty_file", "empty_dir", "special_name", "-n", "prefix_sibling", "big_file"]
 
 CFG = {
